@@ -190,6 +190,46 @@ template <class S> static void extremes(const std::vector<const SolSpec*>& sols)
   }
 }
 
+// parameter values at the edges of the scalar type's range, then every function that formats or inspects them
+template <class S> static void extreme_values() {
+  const std::string P = ST<S>::name();
+  std::vector<long double> X = {-1.234567890123456e-300L, -9.876543210987654e+300L, 1.7976931348623157e308L, -4.9406564584124654e-324L, -2.2250738585072014e-308L, 1e-320L};
+  if (sizeof(S) > 8) for (long double v : {-1.234567890123456e-2000L, -9.876543210987654e+4000L, -3.645199531882474e-4951L, 1.18973149535723176502e+4932L, -1.234567890123456789e+1000L}) X.push_back(v);
+  for (const char* sol : {"euler_1d", "heateq_2d_unsteady_const", "navierstokes_4d_compressible_powerlaw", "cp_normal", "fans_sa_steady_wall_bounded"}) {
+    CAP.begin(); masa_init<S>("xv", sol); CAP.end();
+    std::vector<std::string> names = param_names<S>();
+    for (long double xv : X) {
+      op<S>("every parameter of " + std::string(sol) + " set to " + jnum(xv) + ", then display / sanity / get <" + P + ">");
+      CAP.begin();
+      for (auto& n : names) masa_set_param<S>(n, (S)xv);
+      masa_display_param<S>(); masa_display_vec<S>(); masa_sanity_check<S>(); masa_list_mms<S>();
+      for (auto& n : names) (void)masa_get_param<S>(n);
+      CAP.end();
+      LOG.count("extreme_value_rounds", 1);
+    }
+    CAP.begin(); masa_init_param<S>(); CAP.end();
+  }
+  conserve<S>("extreme parameter values");
+}
+
+// the API used while the process shuts down: a handler registered BEFORE the first MASA call runs after everything registered later has been
+// destroyed - the library must still be there (ASan / valgrind see a registry that was torn down too early)
+static void shutdown_user() {
+  CAP.begin();
+  std::string nm; MASA::masa_get_name<double>(&nm);
+  volatile double v = MASA::masa_eval_source_t<double>(0.3125); (void)v;
+  volatile long double w = MASA::masa_eval_source_rho<long double>(0.25L); (void)w;
+  int d = 0; ::masa_get_dimension(&d);
+  MASA::masa_list_mms<long double>();
+  CAP.end();
+}
+static void at_exit_mode() {
+  CAP.begin();
+  MASA::masa_init<double>("late", "heateq_1d_steady_const"); MASA::masa_init<long double>("late", "euler_1d");
+  CAP.end();
+  LOG.count("api_calls_scheduled_for_process_shutdown", 5);
+}
+
 template <class S> static void strings() {
   // hostile strings: empty, very long, separators only, embedded control bytes, as handle / solution / parameter / vector names
   const std::string P = ST<S>::name();
@@ -229,6 +269,7 @@ template <class S> static void growth() {
 }
 
 int main(int argc, char** argv) {
+  if (getarg(argc, argv, "--mode", "all") == "atexit") atexit(shutdown_user);   // registered before the first MASA call of the process
   LOG.open(getarg(argc, argv, "--out"));
   CAP.install();
   install_crash_handlers();
@@ -247,6 +288,8 @@ int main(int argc, char** argv) {
   if (mode == "strings") { if (d) strings<double>(); else strings<long double>(); }
   if (mode == "badstdout") { if (d) bad_stdout<double>(); else bad_stdout<long double>(); }
   if (mode == "badstdout") { if (d) bad_stdout<double>(); else bad_stdout<long double>(); }
+  if (mode == "xvalues") { if (d) extreme_values<double>(); else extreme_values<long double>(); }
+  if (mode == "atexit") at_exit_mode();
   if (mode == "growth") { if (d) growth<double>(); else growth<long double>(); }
   LOG.count("api_operations", n_ops);
   end_ok();
